@@ -322,19 +322,30 @@ class _Ttl:
                     return p + ":"
         if self.base and iri.startswith(self.base) and st.random() < 0.6 and not (self.base_spelled and iri[len(self.base) : len(self.base) + 1] in ("#", "?")):
             # (a reference that is only a fragment or a query keeps the last segment of the base as it is spelled)
-            return "<" + iri[len(self.base) :] + ">"
+            return "<" + self.dots(iri[len(self.base) :]) + ">"
         if self.base and self.base.count("/") >= 4 and self.base.endswith("/") and st.random() < 0.4:
             # a reference that climbs out of the base's directory: ../x (also up to the root directory)
             parent = self.base[: self.base.rstrip("/").rfind("/") + 1]
             if iri.startswith(parent) and not iri.startswith(self.base) and len(iri) > len(parent):
-                return "<../" + iri[len(parent) :] + ">"
+                return "<" + self.dots("../" + iri[len(parent) :]) + ">"
         if self.base and st.random() < 0.25:
             # absolute-path and network-path references (resolved against scheme / authority of the base)
             k = self.base.find("/", 8)
             origin = self.base[:k] if k > 0 else self.base
             if iri.startswith(origin + "/") and "//" not in iri[len(origin) :]:
-                return "<" + (iri[len(origin) :] if st.random() < 0.7 else iri[iri.find("//") :]) + ">"
+                return "<" + (self.dots(iri[len(origin) :]) if st.random() < 0.7 else iri[iri.find("//") :]) + ">"
         return _nt_iri(iri, st)
+
+    def dots(self, rel):
+        """the same relative reference with segments that change nothing: './', 'x/../', '/./' (RFC 3986 5.2.4 takes them out)"""
+        st = self.st
+        if not rel or rel[0] in "#?" or st.random() >= 0.2:
+            return rel
+        if rel[0] == "/":
+            return st.choice(["/." + rel, "/x/.." + rel, "/.." + rel])
+        if rel.startswith("../"):
+            return st.choice(["./" + rel, "../x/../" + rel[3:]])
+        return st.choice(["./" + rel, "x/../" + rel, "x/y/../../" + rel, rel.replace("/", "/./", 1) if "/" in rel.split("#")[0].split("?")[0] else "./" + rel])
 
     def term(self, t, predicate=False, position=None):
         st = self.st
